@@ -14,10 +14,13 @@ def sh(cmd, cwd=None, env=None):
 name, wt = sys.argv[1:3]
 dst = os.path.join(VERIF, "seeded", "harmless-" + name)
 os.makedirs(dst, exist_ok=True)
-rc, patch = sh("git diff -- src", cwd=wt)
-open(os.path.join(dst, "patch.diff"), "w").write(patch)
-if os.path.exists(os.path.join(wt, "NOTES.md")):
-    shutil.copy(os.path.join(wt, "NOTES.md"), os.path.join(dst, "NOTES.md"))
+if os.path.isdir(wt):
+    rc, patch = sh("git diff -- src", cwd=wt)
+    open(os.path.join(dst, "patch.diff"), "w").write(patch)
+    if os.path.exists(os.path.join(wt, "NOTES.md")):
+        shutil.copy(os.path.join(wt, "NOTES.md"), os.path.join(dst, "NOTES.md"))
+else:                                           # re-run of a stored patch
+    patch = open(os.path.join(dst, "patch.diff")).read()
 manifest = json.load(open(os.path.join(VERIF, "MANIFEST.json")))
 props = [c["property_id"] for c in manifest["checks"]]
 rc, out = sh(f"git -C /repo apply {dst}/patch.diff")
@@ -36,8 +39,12 @@ try:
 finally:
     sh("git -C /repo checkout -- .")
 alarms = sorted(p for p, v in res.items() if v["violation"] or v["rc"] != 0)
-json.dump({"name": name, "kind": "harmless refactoring", "lines_changed": patch.count("\n+") + patch.count("\n-"),
-           "alarms": alarms, "checks": res}, open(os.path.join(dst, "meta.json"), "w"), indent=1)
+old = {}
+if os.path.exists(os.path.join(dst, "meta.json")):
+    old = json.load(open(os.path.join(dst, "meta.json")))
+old.update({"name": name, "kind": "harmless refactoring", "lines_changed": patch.count("\n+") + patch.count("\n-"),
+            "alarms": alarms, "checks": res})
+json.dump(old, open(os.path.join(dst, "meta.json"), "w"), indent=1)
 print(json.dumps({"name": name, "alarms": alarms}))
 for p in alarms:
     print(" ", p, res[p]["summary"])
